@@ -693,12 +693,18 @@ fn leftover_whitespace(out: &str, l: &Lexed) -> Option<String> {
         }
         let gap = &b[start..cursor];
         let only_newlines = gap.iter().all(|c| *c == b'\n' || *c == b'\r');
-        if !(gap.is_empty() || gap == b" " || only_newlines) {
+        // the one blank the generator must write itself: between the `{` that opens an interpolated value and
+        // the `{` of a table constructor (`{{` is not Luau); line-padding newlines may follow that blank
+        let interp_then_table = !*is_com
+            && item == b"{"
+            && prev.map(|p| p.ends_with(b"{") && (p.starts_with(b"`") || p.starts_with(b"}"))).unwrap_or(false);
+        let blank_then_newlines = gap.first() == Some(&b' ') && gap[1..].iter().all(|c| *c == b'\n' || *c == b'\r');
+        if !(gap.is_empty() || gap == b" " || only_newlines || (interp_then_table && blank_then_newlines)) {
             return Some(format!("separator {:?} before {:?}", show(gap), show(item)));
         }
         if gap == b" " && !*is_com {
             if let Some(p) = prev {
-                if tight(p) || tight(item) {
+                if (tight(p) || tight(item)) && !interp_then_table {
                     return Some(format!("a blank between {:?} and {:?}", show(p), show(item)));
                 }
             }
@@ -1251,7 +1257,7 @@ fn append_files() -> Vec<&'static str> {
     ]
 }
 
-const TEMPLATES: [&str; 27] = [
+const TEMPLATES: [&str; 31] = [
     "local a , b = 1 , 0x1F",
     "local function f ( x , ... ) return x + 1 , ... end",
     "function M . n : m ( a ) local t = { 1 , 2 ; x = 3 , [ \"k\" ] = 4 } return t [ 1 ] . x end",
@@ -1268,6 +1274,11 @@ const TEMPLATES: [&str; 27] = [
     "local v : number = ( w :: any ) :: number",
     "local r = if c then 1 elseif d then 2 else 3",
     "local s = `a{ x }b{ y + 1 }c` .. `plain` .. `{ z }`",
+    // interpolated values that START with a table constructor (`{{` is not Luau: the generator must keep them apart)
+    "local it = `{ { 1 , 2 } }`",
+    "local iu = `a{ { } :: any }b{ { x = 1 } == t }`",
+    "local iv = `{ { } .. x }` .. `{ { f } and 1 }c`",
+    "local d = 5. or 1 local c = a .. .5 local m = a - - b local q = t [ [[s]] ] local g : A < B > = nil",
     "local n = 1e10 + .5 + 3. + 0b1010 + 1_000 + 0xFF_FF - 1e-3 + 0XAB + 1E+2",
     "local f = function < T > ( a : T , ... : T ) : ( T , ... T ) return a , ... end",
     "t = { [ 1 ] = 1 , a = 2 , 3 , } f { } f ''",
@@ -1771,6 +1782,120 @@ fn carrier_sweep(report: &mut Report, ctx: &mut Ctx) -> Vec<Case> {
 }
 
 // ------------------------------------------------------------------------------------------
+// adjacency guards of the token-based generator: every place where it decides from the text already
+// written (`ends_with`), from trivia of the next token (`has_trivia`-like) or from `needs_space` whether two
+// tokens may touch. `⟨⟩` marks the gap; each gap is filled with no trivia, trailing-only trivia (on the
+// line of the token before), leading-only trivia (after a line break), both, with blanks and comments.
+
+const GUARD_TEMPLATES: &[(&str, &str)] = &[
+    // write_string_value_segment_with_tokens: `{` of an interpolated value followed by a table's `{`
+    ("interp value starts with a table", "local s = `{⟨⟩{ 1 , 2 } }`"),
+    ("interp value starts with a table", "local s = `a{⟨⟩{ } :: any }b{⟨⟩{ x = 1 } == t }c`"),
+    ("interp value starts with a table", "local s = `{⟨⟩{ } .. x }`"),
+    ("interp value starts with a table", "local s = `{⟨⟩{ f } and 1 }`"),
+    ("interp value starts with a table", "local s = `{⟨⟩{ { 1 } } }`"),
+    ("table brace trivia behind an interp brace", "local s = `{ {⟨⟩1 } }`"),
+    ("table brace trivia behind an interp brace", "local s = `{⟨⟩{⟨⟩1 } }`"),
+    ("table brace trivia behind an interp brace", "local s = `{ {⟨⟩} }`"),
+    // write_trivia: a comment right after a `-`
+    ("`-` before a comment", "local e = a -⟨⟩b"),
+    ("`-` before a comment", "local e = -⟨⟩b"),
+    ("`-` before a comment", "local e = a -⟨⟩- b"),
+    ("`-` before a comment", "local e = a -⟨⟩-⟨⟩b"),
+    // needs_space / follows_original / last_number_dot
+    ("number ending with a dot", "local d = 5.⟨⟩or 1"),
+    ("number ending with a dot", "local d = 5.⟨⟩.. x"),
+    ("number before dots", "local d = 1⟨⟩.. 2"),
+    ("dots before a number", "local c = a ..⟨⟩.5"),
+    ("dots before a number", "local c = a ..⟨⟩5"),
+    ("bracket before a long string", "local q = t [⟨⟩[[s]] ]"),
+    ("bracket before a long string", "local q = t [⟨⟩[=[s]=]⟨⟩]"),
+    ("closing brackets", "local q = t [ u [ 1 ]⟨⟩]"),
+    ("`>` before `=`", "local g : A < B >⟨⟩= nil"),
+    ("names and keywords", "local⟨⟩x = a⟨⟩and⟨⟩b⟨⟩or⟨⟩not⟨⟩c"),
+    ("names and numbers", "local n = 1⟨⟩or⟨⟩0x1⟨⟩and⟨⟩2"),
+    ("call with a string or a table", "local r = f⟨⟩\"s\" , f⟨⟩{ } , f⟨⟩[[x]]"),
+    ("variadic type pack", "type W = ( ...⟨⟩number ) -> (⟨⟩...⟨⟩string )"),
+    ("generic type pack", "type G < T...⟨⟩> = ( T...⟨⟩) -> ( )"),
+    ("semicolon and parenthese", "f ( )⟨⟩;⟨⟩( g ) ( )"),
+    ("return and last semicolon", "do return⟨⟩1⟨⟩;⟨⟩end"),
+];
+
+const GAPS: &[(&str, &str)] = &[
+    ("none", ""),
+    ("blank", " "),
+    ("trailing long comment", "--[[c]]"),
+    ("trailing long comment", " --[[c]]"),
+    ("trailing long comment", " --[[c]] "),
+    ("trailing line comment", " --c\n"),
+    ("trailing line comment", "--c\n"),
+    ("line break", "\n"),
+    ("leading blank", "\n  "),
+    ("leading long comment", "\n--[[c]]"),
+    ("leading long comment", "\n  --[[c]] "),
+    ("leading line comment", "\n--c\n"),
+    ("both", " --[[c]]\n--[[d]] "),
+    ("both", "--[[c]]\n  --d\n  "),
+    ("multi-line comment", " --[[c\nd]] "),
+];
+
+/// the directed guard family: every template x every gap filling x the 12 rule pipelines of the carrier sweep
+fn guard_cases(report: &mut Report, ctx: &mut Ctx) -> Vec<Case> {
+    let rules = carrier_rules();
+    let mut cases = Vec::new();
+    let mut reached: HashMap<&str, u64> = HashMap::new();
+    for (guard, t) in GUARD_TEMPLATES {
+        for (gap_kind, gap) in GAPS {
+            let src = format!("{}\n--@D", t.replace("⟨⟩", gap));
+            // the filling must not change the program: same reference tokens as with a blank in every gap
+            // (`5.or` is one malformed number for Lua/Luau although darklua's tokenizer splits it)
+            let spaced = format!("{}\n--@D", t.replace("⟨⟩", " "));
+            if ctx.lex(&src).code() != ctx.lex(&spaced).code() {
+                report.hist("guard_sources", &format!("{}: changes the tokens", gap_kind));
+                continue;
+            }
+            if ctx.baseline(&src).is_err() {
+                report.hist("guard_sources", &format!("{}: rejected by darklua", gap_kind));
+                continue;
+            }
+            report.hist("guard_sources", &format!("{}: accepted", gap_kind));
+            report.hist("guard", &format!("{} / {}", guard, gap_kind));
+            *reached.entry(guard).or_default() += 1;
+            for r in &rules {
+                cases.push(Case::Remove { src: src.clone(), rule: r.clone() });
+            }
+        }
+    }
+    // self-check: every guard has sources that darklua accepts, with trailing-only, leading-only and no trivia
+    for (guard, _) in GUARD_TEMPLATES {
+        if reached.get(guard).cloned().unwrap_or(0) < 3 {
+            report.violation(Violation {
+                kind: "correspondence".into(),
+                check: "guard_coverage".into(),
+                what: format!("adjacency guard {:?} has fewer than 3 accepted sources", guard),
+                input: json!({"kind": "self-check"}),
+                failing_input_found: false,
+            });
+        }
+    }
+    // self-check: the brace guard of interpolated values is really reached: with remove_spaces the real
+    // output must keep `{` and the table's `{` apart by exactly the blank the generator inserts
+    let probe = "local s = `{ { 1 } }`";
+    match run_real(probe, "{rules:['remove_spaces']}") {
+        Ok(out) if out.contains("`{ {1}}`") => report.count("interp_brace_guard_reached", 1),
+        other => report.violation(Violation {
+            kind: "correspondence".into(),
+            check: "guard_coverage".into(),
+            what: format!("the interpolated-value brace guard is not reached as expected: remove_spaces on {:?} gives {:?}", probe, other),
+            input: json!({"kind": "remove_spaces", "src": probe}),
+            failing_input_found: false,
+        }),
+    }
+    report.count("guard_cases", cases.len() as u64);
+    cases
+}
+
+// ------------------------------------------------------------------------------------------
 // driving
 
 fn run_parallel(cases: Vec<Case>, cross_check: bool) -> Vec<(Case, Outcome)> {
@@ -1996,7 +2121,7 @@ pub fn run(report: &mut Report, replay: Option<&str>) {
     let mut rng = Rng::new(report.seed);
     report.rule = "append: every text over {[ ] = - a LF CR SP} up to length 4 (+ the property's list) x {start,end} x {empty file, print(1)LF}; \
                    up to length 3 (thorough: 4) on 15 files (ending with a line comment / without newline / comment-only …). \
-                   remove: generated Luau programs (27 statement templates, comment in every gap or random gaps, LF and CRLF) x \
+                   remove: generated Luau programs (31 statement templates, comment in every gap or random gaps, LF and CRLF) x \
                    {remove_spaces, remove_comments, except literal sets, except regex sets}. \
                    Non-trivial = append with a non-empty text, or a remove case whose source has at least one comment; keys are (config, source)."
         .to_owned();
@@ -2010,6 +2135,11 @@ pub fn run(report: &mut Report, replay: Option<&str>) {
 
     // 0b. every token carrier of the AST
     let cases = carrier_sweep(report, &mut ctx);
+    let r = run_parallel(cases, true);
+    fold(report, &mut ctx, r);
+
+    // 0c. the adjacency guards of the generator
+    let cases = guard_cases(report, &mut ctx);
     let r = run_parallel(cases, true);
     fold(report, &mut ctx, r);
 
